@@ -274,6 +274,7 @@ class Fn:
         self.nblocks = len(self._blocks)
         self._calls = None
         self._stmts = None
+        self._flat = None
         self._succ = None
         self._pred = None
         self._dom = None
@@ -292,7 +293,9 @@ class Fn:
             for b, blk in enumerate(self._blocks):
                 self._stmts.append([Stmt(b, i, s) for i, s in enumerate(blk["s"])])
         if bb is None:
-            return [s for b in self._stmts for s in b]
+            if self._flat is None:
+                self._flat = [s for b, ss in enumerate(self._stmts) if not self._blocks[b]["cleanup"] for s in ss]
+            return self._flat
         return self._stmts[bb]
 
     @property
